@@ -913,8 +913,12 @@ pub fn c07(out: &mut dyn Write, tier: &str, rng: &mut Rng, st: &mut Stats) {
         }
     }
     for (i, f) in unary_functions(tier, rng).into_iter().enumerate() {
+        // two of three functions meet an environment of their own, which has seen nothing yet (no literal of any variable
+        // is in its table); the third the long-lived one, which by now has seen every variable
+        let own: BDDEnv<usize> = BDDEnv::new();
+        let env: &BDDEnv<usize> = if i % 3 == 0 { &env } else { st.hit("model.fresh-environment"); &own };
         // every other operand is the environment's own shared node instead of a plain value
-        let f = if i % 2 == 1 { crate::env::intern(&env, &f) } else { f };
+        let f = if i % 2 == 1 { crate::env::intern(env, &f) } else { f };
         let r = env.model(Rc::clone(&f));
         writeln!(out, "C07|model|{}|{}", show(&f), show(&r)).unwrap();
         st.hit(if r.is_false() { "model.false" } else { "model.cube" });
